@@ -89,7 +89,9 @@ class Shadow:
     def nabf(self):
         if self.frames and self.frames[0][1]: return self.frames[0][1]
         if not self.prate: return 1
-        return int(self.arate / self.prate)
+        import math, struct
+        q = struct.unpack("<f", struct.pack("<f", self.arate / self.prate))[0]     # the library rounds the 32-bit quotient (fix fd58235)
+        return int(math.floor(q + 0.5))
     def frame_ok(self, pn, cn, ns):
         pn = [n.rstrip(b" ") for n in pn]
         if self.pts and len(pn) != len(self.pts): return False
